@@ -212,6 +212,7 @@ func c11Step(c psatoken.IClaims, m *MClaims, o setterOp) (string, bool, bool) {
 	if !applicable {
 		return "", false, false
 	}
+	otherTrafficEvery(8) // the claims-set is observed after unrelated work
 	want := o.modelAccepts(m.Prof)
 	isClear := o.Claim == CSwComps && len(o.Comps) == 0 && o.Mode <= 1
 	if o.Claim == CSwComps && o.Mode >= 2 && len(o.Comps) == 0 {
